@@ -36,7 +36,7 @@ func genC02Tuple(t *rapid.T, l string) c02Tuple {
 		Key:  rapid.IntRange(0, 2).Draw(t, l+"key"),
 		Ctx:  ctxGen.Draw(t, l+"ctx"),
 		HT:   rapid.IntRange(1, 3).Draw(t, l+"ht"),
-		Data: rapid.SliceOfN(rapid.Byte(), 0, 64).Draw(t, l+"data"),
+		Data: rapid.OneOf(rapid.SliceOfN(rapid.Byte(), 0, 64), rapid.SliceOfN(rapid.Byte(), 0, 64), rapid.SliceOfN(rapid.Byte(), 65, 3000)).Draw(t, l+"data"),
 	}
 }
 
